@@ -7,45 +7,6 @@ namespace TlxVerif.C03
 
 variable {α : Type}
 
-/-! ### prefix sums of the bucket sizes -/
-
-/-- start offset of bucket `c` -/
-def pfx (sizes : List Nat) (c : Nat) : Nat := (sizes.take c).sum
-
-theorem pfx_zero (sizes : List Nat) : pfx sizes 0 = 0 := by simp [pfx]
-
-theorem pfx_succ (sizes : List Nat) (c : Nat) : pfx sizes (c + 1) = pfx sizes c + sizes.getD c 0 := by
-  simp only [pfx, List.take_add_one, List.sum_append]
-  cases h : sizes[c]? with
-  | none => simp [List.getD, h]
-  | some v => simp [List.getD, h]
-
-theorem pfx_mono (sizes : List Nat) (a b : Nat) (h : a ≤ b) : pfx sizes a ≤ pfx sizes b := by
-  induction b with
-  | zero => have : a = 0 := by omega
-            subst this; exact Nat.le_refl _
-  | succ b ih =>
-    by_cases e : a = b + 1
-    · subst e; exact Nat.le_refl _
-    · have := ih (by omega)
-      rw [pfx_succ]; omega
-
-theorem pfx_all (sizes : List Nat) (c : Nat) (h : sizes.length ≤ c) : pfx sizes c = sizes.sum := by
-  simp [pfx, List.take_of_length_le h]
-
-/-- two non-empty buckets with the same start are the same bucket -/
-theorem pfx_inj (sizes : List Nat) (a b : Nat) (ha : sizes.getD a 0 ≠ 0) (hb : sizes.getD b 0 ≠ 0)
-    (h : pfx sizes a = pfx sizes b) : a = b := by
-  apply Classical.byContradiction
-  intro hne
-  rcases Nat.lt_or_gt_of_ne hne with hlt | hlt
-  · have := pfx_mono sizes (a + 1) b (by omega)
-    rw [pfx_succ] at this
-    omega
-  · have := pfx_mono sizes (b + 1) a (by omega)
-    rw [pfx_succ] at this
-    omega
-
 /-! ### counting -/
 
 /-- if the positions `[a, b)` of a list all satisfy `P` and one more position outside does, the
@@ -92,28 +53,6 @@ theorem countP_segment_plus {β : Type} (P : β → Bool) (L : List β) (a b q :
       exact ⟨q - b, by rw [List.getElem?_drop]; rw [show b + (q - b) = q by omega]; exact hx⟩
     omega
 
-/-! ### the counting pass, the inclusive prefix sums -/
-
-theorem count_pass (l : List (α × Nat)) (acc : Array Nat) (c : Nat) (hc : c < acc.size) :
-    (l.foldl (fun acc p => acc.modify p.2 (· + 1)) acc).getD c 0
-      = acc.getD c 0 + l.countP (fun p => p.2 == c) ∧
-    (l.foldl (fun acc p => acc.modify p.2 (· + 1)) acc).size = acc.size := by
-  induction l generalizing acc with
-  | nil => simp
-  | cons p ps ih =>
-    simp only [List.foldl_cons]
-    obtain ⟨h1, h2⟩ := ih (acc.modify p.2 (· + 1)) (by rw [Array.size_modify]; exact hc)
-    rw [h1, h2, Array.size_modify]
-    refine ⟨?_, rfl⟩
-    rw [List.countP_cons]
-    simp only [Array.getD_eq_getD_getElem?, Array.getElem?_modify]
-    have hcs : acc[c]? = some acc[c] := Array.getElem?_eq_getElem hc
-    by_cases e : p.2 = c
-    · simp [e, hcs]; omega
-    · have e' : ¬ (p.2 == c) = true := by simpa using e
-      simp [e, e']
-
-
 /-! ### static facts about one step -/
 
 /-- `sizes` are the key counts of the `(element, cached key)` pairs `orig` -/
@@ -121,16 +60,6 @@ structure Static (sizes : List Nat) (orig : List (α × Nat)) : Prop where
   hcnt : ∀ c, orig.countP (fun p => p.2 == c) = sizes.getD c 0
   hkeys : ∀ x ∈ orig, x.2 < sizes.length
   hsum : sizes.sum = orig.length
-
-theorem pfx_le_sum (sizes : List Nat) (c : Nat) : pfx sizes c ≤ sizes.sum := by
-  by_cases h : sizes.length ≤ c
-  · rw [pfx_all sizes c h]; exact Nat.le_refl _
-  · have := pfx_mono sizes c sizes.length (by omega)
-    rw [pfx_all sizes sizes.length (Nat.le_refl _)] at this
-    exact this
-
-theorem getD_zero_of_ge (sizes : List Nat) (c : Nat) (h : sizes.length ≤ c) : sizes.getD c 0 = 0 := by
-  simp [List.getD, List.getElem?_eq_none h]
 
 /-- the first non-empty bucket at or behind `c0` starts where `c0` starts -/
 theorem first_nonempty (sizes : List Nat) (c0 : Nat) (h : pfx sizes c0 < sizes.sum) :
@@ -266,18 +195,6 @@ theorem free_slot {sizes : List Nat} {orig : List (α × Nat)} (st : Static size
   rw [hp.countP_eq, st.hcnt, pfx_succ] at this
   rw [pfx_succ] at hb1
   omega
-
-/-! ### array plumbing -/
-
-theorem getD_setIfInBounds (bkt : Array Nat) (c v c' : Nat) (hc : c < bkt.size) :
-    (bkt.setIfInBounds c v).getD c' 0 = if c = c' then v else bkt.getD c' 0 := by
-  simp only [Array.getD_eq_getD_getElem?, Array.getElem?_setIfInBounds]
-  by_cases e : c = c'
-  · subst e; simp [hc]
-  · simp [e]
-
-theorem toList_getD (bkt : Array Nat) (c : Nat) : bkt.toList.getD c 0 = bkt.getD c 0 := by
-  simp [List.getD_eq_getElem?_getD, Array.getD_eq_getD_getElem?]
 
 /-! ### the loops -/
 
@@ -733,41 +650,6 @@ theorem lastNZ_spec (l : List Nat) (d : Nat) :
       | zero => omega
       | succ c => simpa using h3 c (by omega)
 
-theorem modify_sum (L : List Nat) (k : Nat) (hk : k < L.length) : (L.modify k (· + 1)).sum = L.sum + 1 := by
-  induction L generalizing k with
-  | nil => simp at hk
-  | cons a L ih =>
-    rw [List.modify_cons]
-    split
-    · simp; omega
-    · rename_i h
-      simp only [List.sum_cons]
-      rw [ih (k - 1) (by simp at hk; omega)]
-      omega
-
-theorem count_pass_sum (l : List (α × Nat)) (acc : Array Nat) (hk : ∀ p ∈ l, p.2 < acc.size) :
-    (l.foldl (fun acc p => acc.modify p.2 (· + 1)) acc).toList.sum = acc.toList.sum + l.length := by
-  induction l generalizing acc with
-  | nil => simp
-  | cons p ps ih =>
-    simp only [List.foldl_cons, List.length_cons]
-    rw [ih (acc.modify p.2 (· + 1)) (by
-      intro q hq; rw [Array.size_modify]; exact hk q (by simp [hq]))]
-    rw [Array.toList_modify, modify_sum _ _ (by simpa using hk p (by simp))]
-    omega
-
-theorem splitBy_getElem? {β : Type} (sizes : List Nat) (L : List β) (j : Nat) (hj : j < sizes.length) :
-    (splitBy sizes L)[j]? = some ((L.drop (pfx sizes j)).take (sizes.getD j 0)) := by
-  induction sizes generalizing L j with
-  | nil => simp at hj
-  | cons s rest ih =>
-    cases j with
-    | zero => simp [splitBy, pfx]
-    | succ j =>
-      simp only [splitBy, List.getElem?_cons_succ]
-      rw [ih (L.drop s) j (by simpa using hj)]
-      simp only [pfx, List.take_succ_cons, List.sum_cons, List.getD_cons_succ, List.drop_drop]
-
 /-- **the in-place permutation is correct** -/
 theorem permuteInPlace_ok (R : Nat) (key : α → Nat) (ss : List α) (hR : 0 < R) (hkey : ∀ x ∈ ss, key x < R) :
     PermuteOk R key ss := by
@@ -789,7 +671,7 @@ theorem permuteInPlace_ok (R : Nat) (key : α → Nat) (ss : List α) (hR : 0 < 
     rw [← e]
   have hsizeA : sizesA.size = R := by
     rw [← hfold]
-    have := (count_pass orig (Array.replicate R 0) 0 (by simpa using hR)).2
+    have := (count_pass (fun p : α × Nat => p.2) orig (Array.replicate R 0) 0 (by simpa using hR)).2
     simpa using this
   have hlenS : sizes.length = R := by rw [← hsizes]; simpa using hsizeA
   have st : Static sizes orig := by
@@ -797,7 +679,7 @@ theorem permuteInPlace_ok (R : Nat) (key : α → Nat) (ss : List α) (hR : 0 < 
     · intro c
       rw [← hsizes, toList_getD]
       by_cases hc : c < R
-      · rw [← hfold, (count_pass orig (Array.replicate R 0) c (by simpa using hc)).1]
+      · rw [← hfold, (count_pass (fun p : α × Nat => p.2) orig (Array.replicate R 0) c (by simpa using hc)).1]
         simp [Array.getD_eq_getD_getElem?, hc]
       · have h0 : sizesA.getD c 0 = 0 := by
           simp [Array.getD_eq_getD_getElem?, Array.getElem?_eq_none (by omega : sizesA.size ≤ c)]
@@ -810,7 +692,7 @@ theorem permuteInPlace_ok (R : Nat) (key : α → Nat) (ss : List α) (hR : 0 < 
         simp at hpc
         omega
     · intro x hx; rw [hlenS]; exact hk2 x hx
-    · rw [← hsizes, ← hfold, count_pass_sum orig _ (by simpa using hk2)]
+    · rw [← hsizes, ← hfold, count_pass_sum (fun p : α × Nat => p.2) orig _ (by simpa using hk2)]
       simp
   -- the prefix-sum pass
   obtain ⟨hb1, hb2⟩ := pfold_spec sizes [] 0 0
